@@ -8,7 +8,8 @@ Model of the transaction-pool core: `tx-pool/src/component/pool_map.rs` (`PoolMa
 Everything follows the Rust control flow *as it is*, including the two places where the
 descendant aggregates are not maintained (DESIGN.md section 7, F2 and F3).  `Cfg.fixF2` switches
 `remove_entry_and_descendants` to the repaired order (surviving ancestors are updated before the
-links are dropped); `fixF2 := false` is the code as written.
+links are dropped); `fixF2 := false` is the code as written.  `Cfg.fixPanic` likewise switches
+`check_and_record_ancestors` to the repaired version that rejects instead of panicking.
 
 Abstractions: hashes / out-points / header hashes are small naturals; `u64`/`usize` additions are
 plain `Nat` additions (the saturating bound 2^64 is never reached: the sum of all fees is bounded by
@@ -81,6 +82,9 @@ structure Cfg where
   expiry : Nat := 0
   /-- repaired `remove_entry_and_descendants` (see /verif/work/C11-fix-F2.diff) -/
   fixF2 : Bool := false
+  /-- repaired `check_and_record_ancestors` (see /verif/work/C11-fix-panic.diff): reject instead of
+      panicking when the eviction took another parent of the new entry with it -/
+  fixPanic : Bool := false
 deriving Repr, Inhabited
 
 structure Pool where
@@ -300,6 +304,8 @@ inductive AncRes where
   | ok (s : Pool) (e : Entry) (evicted : List Nat)
   | rej
   | panic (s : Pool)
+  /-- repaired code only: rejected after the evictions were carried out -/
+  | rejAfter (s : Pool)
 
 /-- `check_and_record_ancestors` -/
 def checkAndRecordAncestors (s : Pool) (e : Entry) : AncRes :=
@@ -312,6 +318,7 @@ def checkAndRecordAncestors (s : Pool) (e : Entry) : AncRes :=
   else if cnt - cellRef.length ≤ s.cfg.maxAnc then
     let cands := ((byEvictKey s.entries).filter (·.tx.id ∈ cellRef)).map (·.tx.id)
     let (s1, _, parents1, ev) := evictLoop cands s cnt parents []
+    if s1.cfg.fixPanic && parents1.any (fun p => (getEntry s1 p).isNone) then .rejAfter s1 else
     let ancestors1 := calcRelation (parentsOf s1.links) (keys s1.links) parents1
     if ancestors1.length < s1.cfg.maxAnc then
       match recordAncestors s1 e ancestors1 parents1 with
@@ -353,6 +360,7 @@ def addEntry (s : Pool) (t : Tx) (st : Status) (ts : Nat) : Pool × AddRes :=
   if !(conflictIds s t).isEmpty || !(decide t.inputs.Nodup) then (s, .rejDbl) else
   match checkAndRecordAncestors s (Entry.fresh t st ts) with
   | .rej => (s, .rejAnc)
+  | .rejAfter s' => (s', .rejAnc)
   | .panic s' => (s', .panic)
   | .ok s e ev =>
     let s := recordEdges s t
